@@ -426,12 +426,17 @@ class Engine:
         s = s.strip()
         if s in ("true", "false"):
             return s == "true"
+        if len(s) >= 3 and s[0] == "'" and s[-1] == "'":
+            body = s[1:-1]
+            return ("char", bytes(body, "utf-8").decode("unicode_escape") if body.startswith("\\") else body)
         m = re.match(r"^(-?[0-9_]+)_(u8|u16|u32|u64|usize|i8|i16|i32|i64|isize|u128|i128)$", s)
         if m:
             return int(m.group(1).replace("_", ""))
         mm = re.match(r"^(u8|u16|u32|u64|usize|i8|i16|i32|i64|isize|u128|i128)::(MIN|MAX)$", s)
         if mm:
             return INT_RANGES[mm.group(1)][0 if mm.group(2) == "MIN" else 1]
+        if s.startswith('b"'):
+            return ("bytes_const", s)
         if s.startswith('"'):
             return ("str", bytes(s[1:-1], "utf-8").decode("unicode_escape").encode("latin-1") if "\\" in s else s[1:-1].encode())
         if s.startswith("ZeroSized: "):
@@ -544,7 +549,7 @@ class Engine:
             if dst_ty not in INT_RANGES:
                 raise Unsupported("Neg on " + dst_ty)
             return self.wrap(-v, dst_ty)
-        em = re.match(r"^([A-Za-z_][\w:<>, ]*?)::([A-Z]\w*)\((.*)\)$", s)
+        em = re.match(r"^([A-Za-z_][\w:<>, &'\[\];()]*?)::([A-Z]\w*)\((.*)\)$", s)
         if em and not s.startswith(("Lt(", "Le(", "Gt(", "Ge(", "Eq(", "Ne(")):
             path = re.sub(r"::<.*>$", "", em.group(1))
             name = path.split("::")[-1] + "::" + em.group(2)
@@ -600,6 +605,8 @@ class Engine:
                     return SliceRef(v, 0, len(arr))
                 return v
             raise Unsupported("cast kind " + kind)
+        if s.startswith("[") and s.endswith("]") and ";" not in s:
+            return [self.operand(frame, x) for x in split_top(s[1:-1])]
         if s.startswith("[") and ";" in s:
             inner = s[1:-1]
             val, n = inner.rsplit(";", 1)
@@ -609,7 +616,11 @@ class Engine:
         am = re.match(r"^(.*?) \{ (.*) \}$", s)
         if am:
             fields = split_top(am.group(2))
-            return [self.operand(frame, f.split(":", 1)[1]) for f in fields]
+            vals = [self.operand(frame, f.split(":", 1)[1]) for f in fields]
+            path = re.sub(r"::<.*?>", "", am.group(1)).split("::")
+            if len(path) >= 2 and path[-1][:1].isupper() and path[-2][:1].isupper():
+                return ("enum", path[-2] + "::" + path[-1], vals)  # struct-like enum variant
+            return vals
         uv = getattr(self, "unit_variants", {})
         if s in uv:
             return uv[s]
@@ -771,7 +782,7 @@ class Engine:
                 return self.call_fn(f, args)
         # inherent methods are printed as `Type::method` at the call site and `module::<impl at ..>::method`
         # at the definition: accept a unique match on the method name
-        if re.match(r"^[A-Z]\w*::\w+$", callee):
+        if re.match(r"^[\w:<>', ]+::[a-z_]\w*$", callee):
             last = callee.split("::")[-1]
             c2 = [f for name, f in self.fns.items() if name.endswith(">::" + last)]
             if len(c2) == 1:
@@ -893,7 +904,121 @@ def ext_into_value(e, m, args):
     return ("enum", "Value::" + kind, [args[0]])
 
 
+def _deref(e, x):
+    return e.read_path(x.frame, x.local, list(x.proj)) if isinstance(x, Ref) else x
+
+
+def _closure_call(e, m, args_for_closure, clo):
+    cty = re.search(r"(\{closure@[^}]*\})", m.group(0))
+    if not cty:
+        raise Unsupported("closure type in " + m.group(0))
+    return e.call_fn(e.closure_fn(cty.group(1)), [clo] + args_for_closure)
+
+
+def ext_opt_as_ref(e, m, args):
+    o = _deref(e, args[0])
+    if o[0] == "Some":
+        return ("Some", Ref({0: o[1]}, 0, ()))
+    return ("None",)
+
+
+def ext_opt_is(e, m, args):
+    o = _deref(e, args[0])
+    return (o[0] == "Some") == (m.group(1) == "is_some")
+
+
+def ext_opt_unwrap_or(e, m, args):
+    o = args[0]
+    return o[1] if o[0] == "Some" else args[1]
+
+
+def ext_opt_and_then(e, m, args):
+    o, clo = args
+    return _closure_call(e, m, [o[1]], clo) if o[0] == "Some" else ("None",)
+
+
+def ext_generic_ok_or(e, m, args):
+    o, err = args
+    return ("enum", "Result::Ok", [o[1]]) if o[0] == "Some" else ("enum", "Result::Err", [err])
+
+
+def ext_res_is(e, m, args):
+    r = _deref(e, args[0])
+    return r[1].endswith("Ok") == (m.group(1) == "is_ok")
+
+
+def ext_res_ok(e, m, args):
+    r = args[0]
+    want = "Ok" if m.group(1) == "ok" else "Err"
+    return ("Some", r[2][0]) if r[1].endswith(want) else ("None",)
+
+
+def ext_res_map(e, m, args):
+    r, clo = args
+    if r[1].endswith("Ok"):
+        if isinstance(clo, tuple) and clo and clo[0] == "ctor":
+            return ("enum", "Result::Ok", [("enum", clo[1], [r[2][0]])])
+        return ("enum", "Result::Ok", [_closure_call(e, m, [r[2][0]], clo)])
+    return r
+
+
+def ext_res_map_err(e, m, args):
+    r, clo = args
+    if r[1].endswith("Err"):
+        return ("enum", "Result::Err", [_closure_call(e, m, [r[2][0]], clo)])
+    return r
+
+
+def ext_res_and_then(e, m, args):
+    r, clo = args
+    return _closure_call(e, m, [r[2][0]], clo) if r[1].endswith("Ok") else r
+
+
+def ext_int_minmax(e, m, args):
+    a, b = args
+    if is_sym(a) or is_sym(b):
+        return z3.If(a <= b, a, b) if m.group(1) == "min" else z3.If(a >= b, a, b)
+    return min(a, b) if m.group(1) == "min" else max(a, b)
+
+
+def ext_int_cmp(e, m, args):
+    a, b = _deref(e, args[0]), _deref(e, args[1])
+    if is_sym(a) or is_sym(b):
+        return ("enum", "Ordering", [z3.If(a < b, -1, z3.If(a == b, 0, 1))])
+    return ("enum", "Ordering", [(a > b) - (a < b)])
+
+
+def ext_str_starts_with(e, m, args):
+    s, pat = args
+    text = s[1].decode() if isinstance(s[1], bytes) else s[1]
+    if isinstance(pat, tuple) and pat[0] == "char":
+        return text.startswith(pat[1])
+    if isinstance(pat, tuple) and pat[0] == "str":
+        return text.startswith(pat[1].decode())
+    if isinstance(pat, list):
+        return any(text.startswith(p[1]) for p in pat)
+    raise Unsupported("starts_with pattern %r" % (pat,))
+
+
 STD_MODELS = [
+    # formatting is only ever used to build error texts: opaque
+    (r"^core::fmt::rt::Argument::<'_>::new_(?:debug|display)::<.*>$", lambda e, m, a: ("fmt_arg",)),
+    (r"^std::fmt::Arguments::<'_>::(?:new|new_const|from_str|from_str_nonconst)(?:::<.*>)?$", lambda e, m, a: ("fmt_args",)),
+    (r"^(?:std|alloc)::fmt::format$", lambda e, m, a: ("string", "<formatted>")),
+    (r"^must_use::<.*>$", lambda e, m, a: a[0]),
+    (r"^<(?:Arc|std::sync::Arc|Box|std::boxed::Box)<.*> as Clone>::clone$", lambda e, m, a: _deref(e, a[0])),
+    (r"^<(?:i64|u64|f64|bool|usize|TimeDelta|chrono::TimeDelta|DateTime<FixedOffset>|chrono::DateTime<chrono::FixedOffset>) as Clone>::clone$", lambda e, m, a: _deref(e, a[0])),
+    (r"^core::str::<impl str>::starts_with::<.*>$", ext_str_starts_with),
+    (r"^std::option::Option::<.*>::as_ref$", ext_opt_as_ref),
+    (r"^std::option::Option::<.*>::(is_some|is_none)$", ext_opt_is),
+    (r"^std::option::Option::<.*>::unwrap_or$", ext_opt_unwrap_or),
+    (r"^std::option::Option::<.*>::and_then::<.*>$", ext_opt_and_then),
+    (r"^std::result::Result::<.*>::(is_ok|is_err)$", ext_res_is),
+    (r"^std::result::Result::<.*>::(ok|err)$", ext_res_ok),
+    (r"^std::result::Result::<.*>::and_then::<.*>$", ext_res_and_then),
+    (r"^<(?:usize|u64|i64|u32|i32) as Ord>::(min|max)$", ext_int_minmax),
+    (r"^(?:std|core)::cmp::(min|max)::<(?:usize|u64|i64|u32|i32)>$", ext_int_minmax),
+    (r"^<(?:usize|u64|i64|u32|i32) as Ord>::cmp$", ext_int_cmp),
     (r"^core::num::<impl i64>::checked_neg$", ext_checked_neg),
     (r"^core::num::<impl i64>::wrapping_neg$", ext_wrapping_neg),
     (r"^std::option::Option::<.*>::ok_or::<.*>$", ext_option_ok_or),
@@ -910,4 +1035,7 @@ STD_MODELS = [
     (r"^std::string::String::from_utf8_lossy$", ext_from_utf8_lossy),
     (r"^Cow::<'_, str>::into_owned$", ext_identity),
     (r"^<str as ToString>::to_string$", ext_str_to_string),
+    (r"^std::option::Option::<.*>::ok_or::<.*>$", ext_generic_ok_or),
+    (r"^std::result::Result::<.*>::map::<.*\{closure@.*\}>$", ext_res_map),
+    (r"^std::result::Result::<.*>::map_err::<.*\{closure@.*\}>$", ext_res_map_err),
 ]
